@@ -398,7 +398,7 @@ def run(ctx):
     stats = new_stats()
     work = tempfile.mkdtemp(prefix="c09_")
     try:
-        n_tv, n_ev, rounds = (1500, 260, 2) if ctx.quick() else (20000, 6000, 25)
+        n_tv, n_ev, rounds = (1500, 260, 2) if ctx.quick() else (40000, 14000, 40)
         part_tv(ctx, stats, n_tv)
         part_templates(ctx, stats, rounds, work)
         part_eval(ctx, stats, n_ev, work)
